@@ -1496,6 +1496,49 @@ func (r *run) batchScenario() {
 	}
 }
 
+// thirdPartyScenario: operations on a queued transfer requested by somebody who is NOT its sender — a fee increase by
+// message and through the precompile (the requester pays, the sender is refunded amount + whole fee on cancel), a cancel
+// attempt by the other account (refused) and the sender's own cancel
+func (r *run) thirdPartyScenario() {
+	rng := r.rng
+	a := rng.Intn(bx.NUsers)
+	b := (a + 1 + rng.Intn(bx.NUsers-1)) % bx.NUsers
+	g, c := 0, 0 // FX on eth: both hold the fee token from genesis
+	if rng.Intn(3) == 0 {
+		g = 3 + rng.Intn(2) // externally-owned on eth: both hold the ERC-20; base coins are converted first
+		r.cerc(g, a, a, 30)
+		r.cerc(g, b, b, 30)
+	}
+	r.send(c, g, a, 2+rng.Intn(9), 1+rng.Intn(3))
+	txs := r.poolTxs()
+	if len(txs) == 0 {
+		return
+	}
+	tx := txs[len(txs)-1]
+	for _, t := range txs {
+		if t.id > tx.id {
+			tx = t
+		}
+	}
+	r.out.Count("gen:scenario:third-party-fee-and-cancel")
+	n := 1 + rng.Intn(4)
+	if g != 0 {
+		r.cden(g, b, b, n, -1, c) // the requester obtains the bridge denomination
+	}
+	r.incfee(c, tx.id, b, g, n)
+	if g == 0 {
+		r.ccoin(0, b, b, 10) // WFX for the precompile path
+	}
+	r.xincfee(c, tx.id, b, g, 1+rng.Intn(3))
+	r.cancel(c, tx.id, b, rng.Intn(2) == 0, nil)
+	for _, t := range r.poolTxs() {
+		if t.c == c && t.id == tx.id {
+			tt := t
+			r.cancel(c, tx.id, a, rng.Intn(2) == 0, &tt)
+		}
+	}
+}
+
 // bridgeBal: what user u holds of the bridge denomination of (g, c) (FX: the coin itself)
 func (r *run) bridgeBal(u, g, c int) int {
 	d := r.w.Groups[g].Bridge[c]
@@ -1517,8 +1560,23 @@ func (r *run) randomIncfee() {
 	}
 	tx := txs[rng.Intn(len(txs))]
 	payer := tx.u
-	if rng.Intn(8) == 0 {
-		payer = rng.Intn(bx.NUsers)
+	if rng.Intn(4) == 0 {
+		// somebody else pays for the transfer: a different account, and mostly a transfer whose fee token BOTH hold (FX),
+		// so that the request succeeds and the question "who paid" is decided by the balances
+		payer = (tx.u + 1 + rng.Intn(bx.NUsers-1)) % bx.NUsers
+		if rng.Intn(3) > 0 {
+			var fx []poolRec
+			for _, t := range txs {
+				if t.g == 0 {
+					fx = append(fx, t)
+				}
+			}
+			if len(fx) > 0 {
+				tx = fx[rng.Intn(len(fx))]
+				payer = (tx.u + 1 + rng.Intn(bx.NUsers-1)) % bx.NUsers
+			}
+		}
+		r.out.Count("gen:incfee:other-payer")
 	}
 	g := tx.g
 	if rng.Intn(6) == 0 { // another token: prefer one whose bridge denomination / ERC-20 the payer holds
@@ -1874,6 +1932,8 @@ func TestC04(t *testing.T) {
 			r.scriptedIbc()
 		} else if seq%2 == 1 {
 			r.batchScenario()
+		} else if seq%4 == 2 {
+			r.thirdPartyScenario()
 		}
 		for i := 0; i < nOps; i++ {
 			r.randomOp()
